@@ -66,6 +66,55 @@ pub fn run_pass(device: &mut Device) -> anyhow::Result<()> {
         );
     }
 
+    ensure_no_recursive_block_refs(device)?;
+
+    Ok(())
+}
+
+/// A block ref instantiates its target a second time. When the ref itself lies inside of that target,
+/// directly or through other block refs, the device it describes would be infinitely deep
+fn ensure_no_recursive_block_refs(device: &Device) -> anyhow::Result<()> {
+    // For every block: the blocks that are instantiated in it. Those are its sub blocks and the targets of its block refs
+    let mut instantiated_blocks = BTreeMap::<&str, Vec<&str>>::new();
+    // Every block ref that lies in a block: (name of the ref, name of the enclosing block, name of the target)
+    let mut block_refs = Vec::new();
+
+    recurse_objects(&device.objects, &mut |object| {
+        if let Object::Block(block) = object {
+            let instantiated = instantiated_blocks.entry(&block.name).or_default();
+
+            for child in block.objects.iter() {
+                match child {
+                    Object::Block(sub_block) => instantiated.push(&sub_block.name),
+                    Object::Ref(r) if matches!(r.object_override, ObjectOverride::Block(_)) => {
+                        instantiated.push(r.object_override.name());
+                        block_refs.push((&r.name, &block.name, r.object_override.name()));
+                    }
+                    _ => {}
+                }
+            }
+        }
+
+        Ok(())
+    })?;
+
+    for (reffer_name, enclosing_block_name, ref_target_name) in block_refs {
+        // Walk over everything the target instantiates and see if we get back to the block the ref is in
+        let mut seen = HashSet::new();
+        let mut todo = vec![ref_target_name];
+
+        while let Some(block_name) = todo.pop() {
+            ensure!(
+                block_name != enclosing_block_name,
+                "Block ref \"{reffer_name}\" refers to block \"{ref_target_name}\" which contains the ref itself"
+            );
+
+            if seen.insert(block_name) {
+                todo.extend(instantiated_blocks.get(block_name).into_iter().flatten());
+            }
+        }
+    }
+
     Ok(())
 }
 
